@@ -221,7 +221,7 @@ func (s *Symer) sym(v ssa.Value) string {
 				}
 			}
 		}
-		return "local:" + x.Comment
+		return "local:" + canonLocalName(x)
 	case *ssa.FieldAddr:
 		return stripAddr(s.Sym(x.X)) + "." + fieldName(x.X.Type(), x.Field)
 	case *ssa.Field:
